@@ -427,6 +427,7 @@ func writeEvidence(e *Engine, verif string, pr *propRun, tier string, seed, clai
 			"functions_under_contract": pr.funcs,
 			"by_solver":                bySolver,
 			"solver_time_s":            solverTime,
+			"slowest_obligations":      slowest(pr.obs, 8),
 			"undecided_not_claimed":    undecided,
 			"unbound":                  append(unbound, missing...),
 			"known_findings_reported":  kf,
@@ -552,4 +553,30 @@ func secondOpinions(pr *propRun) map[string]int {
 		}
 	}
 	return m
+}
+
+
+// slowest lists the n discharged obligations that took the solvers longest (evidence: how far the run was from its
+// time limit).
+func slowest(obs []*Obligation, n int) []map[string]interface{} {
+	var xs []*Obligation
+	for _, ob := range obs {
+		if ob.ok() && ob.Expect == "unsat" {
+			xs = append(xs, ob)
+		}
+	}
+	sort.Slice(xs, func(i, j int) bool {
+		if xs[i].TimeS != xs[j].TimeS {
+			return xs[i].TimeS > xs[j].TimeS
+		}
+		return xs[i].Name < xs[j].Name
+	})
+	if len(xs) > n {
+		xs = xs[:n]
+	}
+	out := []map[string]interface{}{}
+	for _, ob := range xs {
+		out = append(out, map[string]interface{}{"obligation": ob.Name, "solver": ob.Solver, "time_s": float64(int(ob.TimeS*100)) / 100})
+	}
+	return out
 }
